@@ -48,7 +48,7 @@ Theorem C20_nearest_is_first_minimum :
          (forall c' : str, In c' names -> (l <= lev_go w c')%nat) /\
          (exists pre post : list str,
             names = pre ++ c :: post /\ (forall p : str, In p pre -> (l < lev_go w p)%nat)).
-Proof. exact C20_closest_is_minimum. Qed.
+Proof. exact @C20_closest_is_minimum. Qed.
 Print Assumptions C20_nearest_is_first_minimum.
 
 (* suggestion iff distance < half the name's length, otherwise the enumeration of exactly the sorted visible commands *)
@@ -68,7 +68,7 @@ Theorem C20_message :
                 msg = base ++ enumeration_tail names /\ (forall c' : str, msg <> base ++ suggestion_tail c')) /\
                (msg = base ++ suggestion_tail c <-> (2 * l0 < Datatypes.length c)%nat)
          end.
-Proof. exact C20_message_shape. Qed.
+Proof. exact @C20_message_shape. Qed.
 Print Assumptions C20_message.
 
 Theorem C20_hidden_never_named :
@@ -83,6 +83,6 @@ Theorem C20_hidden_never_named :
            (map (fun sc : command => c_name (cmd_info sc))
               (filter (fun sc : command => negb (c_hidden (cmd_info sc))) (cmd_subs c))) /\
          Sorted.StronglySorted (fun a b : str => str_ltb b a = false) (visible_sorted_names c).
-Proof. exact C20_hidden_never. Qed.
+Proof. exact @C20_hidden_never. Qed.
 Print Assumptions C20_hidden_never_named.
 
